@@ -375,7 +375,14 @@ func fieldComp(structT types.Type, i int) string {
 		}
 		name = pk + "_" + n.Obj().Name()
 		if n.TypeArgs() != nil && n.TypeArgs().Len() > 0 {
-			name += "_" + sanitize(typeKey(n))
+			// instances of a generic struct share the field components of the generic type (so
+			// that contracts written against `Merge.items` speak about every instance), except for
+			// fields whose type is a bare type parameter: their sort differs per instance
+			if ost, ok := n.Origin().Underlying().(*types.Struct); ok && i < ost.NumFields() {
+				if _, bare := ost.Field(i).Type().(*types.TypeParam); bare {
+					name += "_" + sanitize(typeKey(n))
+				}
+			}
 		}
 	}
 	return "F_" + sanitize(name) + "_" + sanitize(st.Field(i).Name())
